@@ -5,21 +5,23 @@
    order-0 ENCODER of noodles, and an INDEPENDENT decoder for orders 0 and 1 written from the
    CRAM codecs specification) and NV.Cram.Rans4x8O1 (faithful model of the order-1 ENCODER).
 
-   NV.Cram.Nx16Xform (PACK / RLE / CAT transforms), NV.Cram.Nx16O0 (rANS Nx16 ORDER-0 entropy
-   coder: noodles' encoder AND noodles' repaired decoder) and NV.Cram.Nx16Full (whole Nx16 streams).
+   NV.Cram.Nx16Xform (PACK / RLE / CAT transforms), NV.Cram.Nx16O0 / Nx16O1 (rANS Nx16 ORDER-0 and
+   ORDER-1 entropy coders: noodles' encoder AND noodles' repaired decoder), NV.Cram.Nx16Full (whole
+   STRIPE-free Nx16 streams) and NV.Cram.Nx16Stripe (STRIPE, every flag byte).
 
    The models describe the REPAIRED code (fix commits 01-16 of the C08 series).
    PARTIAL: proved in full for the three integer codings, for rANS 4x8 orders 0 AND 1 (every
-   byte string, whole stream, against the independent decoder) and for rANS Nx16 under every
-   STRIPE-free flag byte whose data ends up verbatim (CAT) or in the ORDER-0 coder, through the
-   model of noodles' own decoder; the Nx16 order-1 coder and STRIPE, the arithmetic coder,
-   fqzcomp, the name tokenizer and gzip/bzip2/lzma have no theorem (implementation-side oracle
-   only). *)
+   byte string, whole stream, against the independent decoder) and for rANS Nx16 under EVERY
+   flag byte (STRIPE, ORDER 0/1, N32, NO_SIZE, CAT, RLE, PACK), through the model of noodles' own
+   decoder; the arithmetic coder, fqzcomp, the name tokenizer and gzip/bzip2/lzma have no theorem
+   (implementation-side oracle only). *)
 From Coq Require Import List NArith ZArith.
 From NV Require Import Cram.Bytes Cram.Itf8 Cram.Ltf8 Cram.Vlq Cram.IntProofs Cram.Rans4x8 Cram.Rans4x8Proofs
   Cram.Rans4x8Table Cram.Rans4x8O1 Cram.Rans4x8O1Proofs Cram.Rans4x8O1Table Cram.Rans4x8O1Full
   Cram.Nx16Xform Cram.Nx16XformProofs Cram.Nx16O0 Cram.Nx16O0Proofs Cram.Nx16O0Table Cram.Nx16O0Total
-  Cram.Nx16Full Cram.Nx16FullProofs.
+  Cram.Nx16O1 Cram.Nx16O1Defs Cram.Nx16O1Proofs Cram.Nx16O1Table Cram.Nx16O1Count Cram.Nx16Full
+  Cram.Nx16FullProofs Cram.Nx16O1Total Cram.Nx16O1Full Cram.Nx16Stripe Cram.Nx16StripeLists Cram.Nx16StripeProofs Cram.Aac Cram.AacModes Cram.AacRle
+  Cram.AacModesProofs.
 Import ListNotations.
 Open Scope N_scope.
 
@@ -313,45 +315,113 @@ Theorem c08_nx_o0_roundtrip : forall n src tail,
 Proof. exact nx_o0_roundtrip. Qed.
 Print Assumptions c08_nx_o0_roundtrip.
 
-(* WHOLE Nx16 STREAMS, every flag byte without STRIPE (ORDER, N32, NO_SIZE, CAT, RLE, PACK and the
+(* ---- order 1 ---- *)
+
+(* the interleaved order-1 loops for ANY table in which every (context, symbol) pair that is coded
+   has a non-zero frequency, any number n > 0 of states: the encoder (remainder first, positions
+   back to front, states last to first) terminates with its states in [2^15, 2^31) and noodles'
+   decoder (positions front to back, then the remainder with the last state) reads the rows and the
+   remainder back *)
+Theorem c08_nx_o1_core_roundtrip : forall F1 n, (0 < n)%nat -> forall rows K rem,
+  length K = n -> rows_ok F1 K rows rem ->
+  exists St stack,
+    enc16_rows n F1 (map cumulative F1) K rows rem = Some (St, stack) /\
+    length St = n /\ Forall state_ok16 St /\
+    forall rest, exists K' St' b3,
+      dec16_rows (length rows) 4096 F1 (map cumulative F1) K St (stack ++ rest) = ROk (rows, K', St', b3) /\
+      dec16_tail (length rem) 4096 F1 (map cumulative F1) (last K' 0) (last St' 0) b3 = ROk rem.
+Proof. exact nx_o1_core_roundtrip. Qed.
+Print Assumptions c08_nx_o1_core_roundtrip.
+
+(* the serialised order-1 table (header 0xC0, alphabet, per context the alphabet's frequencies as
+   uint7 with zero runs) is read back as the same 256 x 256 table *)
+Theorem c08_nx_o1_table_roundtrip : forall A F1 rest,
+  length A = 256%nat -> nth 0 A false = true ->
+  o1_table_ok F1 -> o1_support A F1 ->
+  read_freqs1 (192 :: write_alphabet A ++ wr_rows A A F1 ++ rest) = ROk (4096, F1, rest).
+Proof. exact o1_table_roundtrip. Qed.
+Print Assumptions c08_nx_o1_table_roundtrip.
+
+(* chunks, rows and the counted table of the encoder: the transposition is undone by the decoder's
+   dst[j * q + i] layout, every row of the table sums to exactly 4096 (or is empty), non-zero
+   frequencies occur only between symbols of the alphabet, and every pair the coder uses -- chunk
+   starts under NUL, adjacent bytes of a chunk, the last chunk's end into the remainder -- has a
+   non-zero frequency *)
+Theorem c08_nx_o1_count : forall n src,
+  (0 < n)%nat -> (n <= length src)%nat ->
+  Forall (fun b => b < 256) src -> N.of_nat (length src) < 268435456 ->
+  let q := Nat.div (length src) n in
+  exists cs rem F1,
+    split_chunks n q src = (cs, rem) /\
+    length (rows_of q cs) = q /\ Forall (fun r => length r = n) (rows_of q cs) /\
+    concat (cols_of n (rows_of q cs)) ++ rem = src /\
+    length rem = (length src - q * n)%nat /\
+    nx_normalize_rows (raw_freqs1 (hd [] (rows_of q cs)) src) = Some F1 /\
+    o1_table_ok F1 /\ o1_support (alphabet1 src) F1 /\
+    length (alphabet1 src) = 256%nat /\ nth 0 (alphabet1 src) false = true /\
+    rows_ok F1 (repeat 0 n) (rows_of q cs) rem.
+Proof. exact nx_o1_count. Qed.
+Print Assumptions c08_nx_o1_count.
+
+(* the whole order-1 stream, EVERY byte string of n .. 2^28-1 bytes, any state count n > 0 *)
+Theorem c08_nx_o1_roundtrip : forall n src,
+  (0 < n)%nat -> (n <= length src)%nat ->
+  Forall (fun b => b < 256) src -> N.of_nat (length src) < 268435456 ->
+  exists body, nx_o1_encode n src = EncOk body /\ nxd1_decode body (length src) n = ROk src.
+Proof. exact nx_o1_roundtrip. Qed.
+Print Assumptions c08_nx_o1_roundtrip.
+
+(* ---- whole streams ---- *)
+
+(* WHOLE Nx16 STREAMS, EVERY flag byte without STRIPE (ORDER, N32, NO_SIZE, CAT, RLE, PACK and the
    reserved bit arbitrary), every byte string shorter than 2^28: rans_nx16::encode never panics or
-   diverges, and unless it hands the data to the order-1 coder, rans_nx16::decode returns the input
-   -- PACK and RLE applied or refused (flag dropped), CAT given or forced by the short-input
-   fall-back, order-0 entropy coding with 4 or 32 states, with or without the size field.
+   diverges, and rans_nx16::decode returns the input -- PACK and RLE applied or refused (flag
+   dropped), CAT given or forced by the short-input fall-back, order-0 or order-1 entropy coding
+   with 4 or 32 states, with or without the size field.
    This contains the former nx_xform_full_statement (PACK / RLE contexts composed). *)
 Theorem c08_nx_full_roundtrip : forall f src,
   f_stripe f = false -> Forall (fun b => b < 256) src -> N.of_nat (length src) < 268435456 ->
-  match nx_encode_e f src with
-  | NeOk bytes => nx_decode_e bytes (N.of_nat (length src)) = DOk src
-  | NeOrder1 => True
-  | _ => False
-  end.
+  exists bytes, nx_encode_e f src = NeOk bytes /\ nx_decode_e bytes (N.of_nat (length src)) = DOk src.
 Proof. exact nx_full_roundtrip. Qed.
 Print Assumptions c08_nx_full_roundtrip.
 
+(* EVERY FLAG BYTE, STRIPE included (the input dealt into 4 sub-streams, each a NO_SIZE order-0
+   stream of its own, framed by the chunk count and the compressed sizes; the decoder recurses) *)
+Theorem c08_nx_stripe_roundtrip : forall f src,
+  Forall (fun b => b < 256) src -> N.of_nat (length src) < 268435456 ->
+  exists bytes, nx_encode_s f src = NeOk bytes /\ nx_decode_s bytes (N.of_nat (length src)) = DOk src.
+Proof. exact nx_stripe_roundtrip. Qed.
+Print Assumptions c08_nx_stripe_roundtrip.
+
 (* totality of the repaired decoders: for EVERY byte string the order-0 decoder (any table the
    reader accepts, incl. tables scaled up by a power of two and the all-zero table; u32 state
-   arithmetic checked explicitly in the model) and the whole-stream decoder (incl. the branch for
-   entropy-compressed RLE meta-data) return bytes, an io::Error or "unsupported" -- never a panic *)
+   arithmetic checked explicitly in the model), the order-1 decoder (any bit count 0..15 in the
+   table header, verbatim or entropy-compressed table) and the whole-stream decoder (incl. the
+   branch for entropy-compressed RLE meta-data) return bytes, an io::Error or "unsupported"
+   (STRIPE) -- never a panic *)
 Theorem c08_nxd0_decode_never_panics : forall bs len n,
   (0 < n)%nat -> Forall (fun b => b < 256) bs -> nxd0_decode bs len n <> RPanic.
 Proof. exact nxd0_decode_never_panics. Qed.
 Print Assumptions c08_nxd0_decode_never_panics.
+
+Theorem c08_nxd1_decode_never_panics : forall bs len n,
+  (0 < n)%nat -> Forall (fun b => b < 256) bs -> nxd1_decode bs len n <> RPanic.
+Proof. exact nxd1_decode_never_panics. Qed.
+Print Assumptions c08_nxd1_decode_never_panics.
 
 Theorem c08_nx_decode_e_never_panics : forall bs usize,
   Forall (fun b => b < 256) bs -> nx_decode_e bs usize <> DPanic.
 Proof. exact nx_decode_e_never_panics. Qed.
 Print Assumptions c08_nx_decode_e_never_panics.
 
-(* NOT proved: the same statement for the streams the encoder hands to the ORDER-1 coder (NeOrder1
-   above) and for STRIPE; compared with nothing but the implementation's own round trip *)
-Definition c08_nx_order1_full_statement : Prop :=
-  forall f src, Forall (fun b => b < 256) src -> N.of_nat (length src) < 268435456 ->
-    exists bytes, nx_encode_e f src = NeOk bytes /\ nx_decode_e bytes (N.of_nat (length src)) = DOk src.
+Theorem c08_nx_decode_s_never_panics : forall bs usize,
+  Forall (fun b => b < 256) bs -> nx_decode_s bs usize <> DPanic.
+Proof. exact nx_decode_s_never_panics. Qed.
+Print Assumptions c08_nx_decode_s_never_panics.
 
-(* the full C08 statement, NOT proved beyond the parts above: the rANS Nx16 order-1 coder and
-   STRIPE, the adaptive arithmetic coder, fqzcomp, the name tokenizer and gzip/bzip2/lzma have no
-   Gallina model *)
+(* the full C08 statement, NOT proved beyond the parts above: the adaptive arithmetic coder,
+   fqzcomp, the name tokenizer and gzip/bzip2/lzma have no Gallina model; rANS Nx16 is proved
+   against the model of noodles' own decoder, not against an independent specification decoder *)
 Definition c08_full_statement_informal : Prop :=
   forall src, Forall (fun x => x < 256) src -> N.of_nat (length src) + 4 < 4294967296 ->
     (exists bytes, encode_o0 src = EncOk bytes /\ spec_decode bytes = Some src) /\
@@ -443,7 +513,7 @@ Example c08_nx_noodles_vectors :
 Proof. vm_compute. repeat split. Qed.
 
 (* whole Nx16 streams on concrete inputs: order 0 with 4 and with 32 states, PACK+RLE in front of
-   the entropy coder, an alphabet whose run reaches symbol 255; an order-1 request is not modelled;
+   the entropy coder, an alphabet whose run reaches symbol 255; order 1 with 4 and 32 states;
    a table of total 3 is rejected, a run past symbol 255 is an error *)
 Example c08_nx_full_examples :
   let rt fb src := match nx_encode_e_byte fb src with
@@ -452,7 +522,57 @@ Example c08_nx_full_examples :
   let s1 := map N.of_nat (seq 0 40) ++ repeat 7 30 ++ [250; 251; 252; 253; 254; 255; 255; 0] in
   let s2 := repeat 5 60 ++ [3; 4; 4; 4] ++ repeat 9 50 ++ [3; 5; 5; 9; 9; 9; 4] in
   rt 0 s1 = DOk s1 /\ rt 4 s1 = DOk s1 /\ rt 192 s2 = DOk s2 /\ rt 212 s2 = DOk s2 /\
-  nx_encode_e_byte 1 s1 = NeOrder1 /\
+  rt 1 s1 = DOk s1 /\ rt 197 s2 = DOk s2 /\
   nx_decode_e [0; 5; 65; 0; 3; 0; 128; 0; 0; 0; 128; 0; 0; 0; 128; 0; 0; 0; 128; 0; 0] 0 = DErr /\
   nx_decode_e [0; 5; 254; 255; 1; 0; 1; 1] 0 = DErr.
+Proof. vm_compute. repeat split. Qed.
+
+(* noodles' ORDER-1 test vectors: encode.rs test_encode_order_1 ("noodles") is reproduced byte for
+   byte by the model encoder; decode.rs test_decode_order_1 (a 10-bit table whose rows are scaled
+   up by the decoder) is decoded by the model decoder *)
+Example c08_nx_order1_noodles_vectors :
+  nx_encode_e_byte 1 [110; 111; 111; 100; 108; 101; 115] = NeOk
+    [1; 7; 192; 0; 100; 101; 0; 108; 110; 111; 0; 115; 0; 0; 0; 136; 0; 0; 1; 136; 0; 144; 0; 0;
+     0; 0; 2; 160; 0; 0; 2; 0; 5; 160; 0; 0; 1; 160; 0; 0; 3; 0; 4; 160; 0; 0; 0; 0; 0; 144; 0;
+     0; 2; 144; 0; 0; 0; 0; 6; 0; 4; 2; 0; 0; 8; 1; 0; 0; 8; 1; 0; 0; 0; 2; 0] /\
+  nx_decode_e
+    [1; 77; 160; 0; 100; 101; 0; 108; 110; 111; 0; 115; 0; 0; 0; 1; 1; 0; 0; 1; 1; 0; 0; 0; 0;
+     15; 0; 0; 1; 0; 2; 0; 1; 15; 0; 2; 1; 0; 1; 1; 15; 0; 2; 0; 3; 15; 1; 0; 0; 0; 0; 1; 0; 2;
+     15; 0; 0; 0; 5; 16; 128; 114; 96; 0; 128; 139; 95; 0; 192; 176; 96; 0; 64; 73; 57; 0] 0 = DOk
+    [110; 110; 110; 110; 110; 110; 110; 110; 110; 110; 110; 110; 111; 111; 111; 111; 111; 111;
+     111; 111; 111; 111; 111; 111; 111; 111; 111; 111; 100; 100; 100; 100; 100; 100; 100; 100;
+     100; 100; 100; 100; 100; 100; 108; 108; 108; 108; 108; 108; 108; 108; 108; 108; 108; 108;
+     108; 108; 108; 101; 101; 101; 101; 101; 101; 101; 101; 101; 101; 115; 115; 115; 115; 115;
+     115; 115; 115; 115; 115].
+Proof. vm_compute. split; reflexivity. Qed.
+
+(* STRIPE: noodles' test vectors (encode.rs test_encode_stripe, decode.rs test_decode_stripe, whose
+   sub-streams are order-0 coded with their own size fields), a nested STRIPE inside a sub-stream,
+   a chunk count of 0 and a sub-stream that decodes to the wrong length are errors *)
+Example c08_nx_stripe_vectors :
+  let noodles := [110; 111; 111; 100; 108; 101; 115] in
+  nx_encode_s_byte 8 noodles = NeOk
+    [8; 7; 4; 3; 3; 3; 2; 48; 110; 108; 48; 111; 101; 48; 111; 115; 48; 100] /\
+  nx_decode_s
+    [8; 7; 4; 23; 23; 23; 21; 0; 2; 108; 110; 0; 1; 1; 0; 8; 1; 0; 0; 0; 1; 0; 0; 128; 0; 0; 0;
+     128; 0; 0; 0; 2; 101; 111; 0; 1; 1; 0; 8; 1; 0; 0; 0; 1; 0; 0; 128; 0; 0; 0; 128; 0; 0; 0;
+     2; 111; 115; 0; 1; 1; 0; 0; 1; 0; 0; 8; 1; 0; 0; 128; 0; 0; 0; 128; 0; 0; 0; 1; 100; 0; 1;
+     0; 128; 0; 0; 0; 128; 0; 0; 0; 128; 0; 0; 0; 128; 0; 0; 0; 2; 0; 0; 0; 0; 0; 0; 0; 34; 0;
+     129; 17; 1; 127; 0] 0 = DOk noodles /\
+  nx_decode_s [8; 2; 2; 5; 2; 24; 1; 2; 48; 65; 48; 66] 0 = DOk [65; 66] /\
+  nx_decode_s [8; 2; 0] 0 = DErr /\
+  nx_decode_s [8; 2; 2; 4; 2; 32; 2; 65; 66; 48; 67] 0 = DErr.
+Proof. vm_compute. repeat split. Qed.
+
+(* adaptive arithmetic coder, order 0: noodles' test vector (aac/encode.rs test_encode_order_0 =
+   aac/decode.rs test_decode_order_0, "noodles") through the model encoder and decoder, CAT, an
+   input that is packed into nothing (one symbol: CAT forced), and a truncated stream *)
+Example c08_aac_vectors :
+  let noodles := [110; 111; 111; 100; 108; 101; 115] in
+  aac_encode_byte 0 noodles = AeOk [0; 7; 116; 0; 244; 229; 183; 78; 80; 15; 46; 151; 0] /\
+  aac_decode [0; 7; 116; 0; 244; 229; 183; 78; 80; 15; 46; 151; 0] 0 = DOk noodles /\
+  aac_encode_byte 32 noodles = AeOk [32; 7; 110; 111; 111; 100; 108; 101; 115] /\
+  aac_encode_byte 128 [9; 9; 9] = AeOk [160; 3; 1; 9; 0] /\
+  aac_decode [160; 3; 1; 9; 0] 0 = DOk [9; 9; 9] /\
+  aac_decode [0; 7; 116; 0; 244; 229] 0 = DErr.
 Proof. vm_compute. repeat split. Qed.
